@@ -98,6 +98,9 @@ func c19Run(r *zsim.Run) {
 			name += gzipExt
 		}
 		os.WriteFile(name, content, 0o600)
+		// restored / copied backups: the modification time says nothing about the period the file covers
+		mt := now().Add(-time.Duration(1+o.Intn(200)) * time.Hour).Add(time.Duration(i) * time.Minute)
+		os.Chtimes(name, mt, mt)
 	}
 	var rule RotateRule
 	if sizeRule {
@@ -373,7 +376,32 @@ func c19Run(r *zsim.Run) {
 	nsteps := 3 + o.Intn(12)
 	seq := 0
 	for s := 0; s < nsteps && !r.Failed(); s++ {
-		switch o.Intn(6) {
+		switch o.Intn(7) {
+		case 6: // the process restarts: the logger is closed and a new one is opened on the same, non-empty, file
+			r.Quiesce()
+			if err := l.Close(); err != nil {
+				r.Failf("close-error", "Close returned %v", err)
+				return
+			}
+			r.Quiesce()
+			if sizeRule {
+				rule = &SizeLimitRotateRule{
+					DailyRotateRule: DailyRotateRule{rotatedTime: getNowDateInRFC3339Format(), filename: filename, delimiter: delim, days: days, gzip: gz},
+					maxSize:         maxSize, maxBackups: maxBackups,
+				}
+			} else {
+				rule = DefaultRotateRule(filename, delim, days, gz)
+			}
+			var err error
+			if l, err = NewLogger(filename, rule, gz); err != nil {
+				r.Failf("constructor", "NewLogger on the existing file: %v", err)
+				return
+			}
+			r.Probe("restarted_on_existing_file")
+			r.Logf("restarted at %s", now().Format(time.RFC3339))
+			if sizeRule {
+				zsim.Sleep(time.Second)
+			}
 		case 0: // time passes
 			if sizeRule {
 				zsim.Sleep(time.Duration(1+o.Intn(5)) * time.Second)
